@@ -28,6 +28,7 @@ class OpsRecorder:
         self.h = {}
         self.c = {}
         self.d = {}
+        self.e = {}
         self._saved = []
 
     def __enter__(self):
@@ -59,7 +60,16 @@ class OpsRecorder:
 
     def _patch_eccman(self, E):
         rec = self
-        oc, od = E.check, E.decode
+        oc, od, oe = E.check, E.decode, E.encode
+
+        def encode_(self_, message, k=None):
+            r = oe(self_, message, k=k)
+            if self_.n == rec.mbs:
+                m = message.encode("latin-1") if isinstance(message, str) else bytes(bytearray(message))
+                rec.e[(k or self_.k, m)] = bytes(bytearray(r))
+            return r
+        self._saved.append((E, "encode", oe))
+        E.encode = encode_
 
         def check_(self_, message, ecc, k=None):
             r = oc(self_, message, ecc, k=k)
@@ -87,6 +97,9 @@ class OpsRecorder:
         for cls, name, orig in self._saved:
             setattr(cls, name, orig)
         return False
+
+    def enc_table(self):
+        return " ".join("%d:%s:%s" % (k, hx(m), hx(e)) for (k, m), e in self.e.items())
 
     def tables(self):
         ht = " ".join("%s:%s" % (hx(m), hx(h)) for m, h in self.h.items())
